@@ -242,6 +242,18 @@ func checkC06(c c06Case) obs.Result {
 	if err != nil {
 		return obs.Violationf("generated schema rejected: %v\n%s", err, tb.Schema())
 	}
+	// A Schema may be reused: the same Schema object first serves a transform whose input ends in the middle of the
+	// table (so that it stops inside a record, possibly with an error). Nothing of that run may affect the next one.
+	if len(in) > 2 {
+		cut := in[:len(in)*2/3]
+		if dtr, derr := sch.NewTransform("decoy", bytes.NewReader(cut), &transformctx.Ctx{}); derr == nil {
+			for i := 0; i < 64; i++ {
+				if _, e := dtr.Read(); e != nil && !errs.IsErrTransformFailed(e) {
+					break
+				}
+			}
+		}
+	}
 	tr, err := sch.NewTransform("input", bytes.NewReader(in), &transformctx.Ctx{})
 	if err != nil {
 		return obs.Violationf("NewTransform failed: %v\n%s", err, c06Describe(tb, in))
